@@ -11,11 +11,14 @@ from .. import panels_lib as pl
 from ..common import Ctx, setup_path
 from ..judge import dev
 
-PLAN_Q = [("UnitSquare", 2, 2, 2), ("PiSquare", 1, 2, 2), ("LShape", 1, 2, 2), ("Circle", 4, 2, 2), ("UnitInterval", 2, 2, 2)]
-PLAN_T = [("UnitSquare", 3, 2, 2), ("PiSquare", 2, 2, 2), ("LShape", 2, 2, 2), ("Circle", 5, 2, 2), ("UnitInterval", 3, 2, 2)]
+# (curve, MaxL, TLevels, TH[, time unit]): the last two entries are the same abstract pairs on a strongly time-graded
+# scale (h_t down to 1/1024), where only the small elements satisfy aspect <= 32
+FINE = [("UnitSquare", 3, 1, 1, 1.0 / 256), ("Circle", 5, 1, 1, 1.0 / 128)]
+PLAN_Q = [("UnitSquare", 2, 2, 2), ("PiSquare", 1, 2, 2), ("LShape", 1, 2, 2), ("Circle", 4, 2, 2), ("UnitInterval", 2, 2, 2)] + FINE
+PLAN_T = [("UnitSquare", 3, 2, 2), ("PiSquare", 2, 2, 2), ("LShape", 2, 2, 2), ("Circle", 5, 2, 2), ("UnitInterval", 3, 2, 2)] + FINE
 
 
-def population(ctx, name, maxl, tlevels, th, want):
+def population(ctx, name, maxl, tlevels, th, want, tunit=None):
     res, pairs = pl.model_pairs(name, maxl, tlevels, th)
     st = {"curve": name, "MaxL": maxl, "TLevels": tlevels, "TH": th, "tlc": res.stats(), "pairs_in_model": len(pairs)}
     if res.machinery_error:
@@ -24,7 +27,8 @@ def population(ctx, name, maxl, tlevels, th, want):
     if not res.ok:
         ctx.violation("model:Panels:%s:%s" % (name, res.violated), "Panels.tla violates %s for %s" % (res.violated, name), {"tlc_output_tail": res.output[-2500:]})
         return st, None, {}
-    sh = pl.Shape(name, maxl, tlevels)
+    sh = pl.Shape(name, maxl, tlevels, tunit)
+    st["time_unit"] = sh.tunit
     by = {}
     for te, tr in pairs:
         if not want(sh, te, tr):
@@ -59,8 +63,8 @@ def run_c04(prop, tier, seed):
     quick = tier == "quick"
     per_class = 2 if quick else 10
     stats, total, cells, samples = [], 0, set(), []
-    for name, maxl, tlevels, th in (PLAN_Q if quick else PLAN_T):
-        st, sh, by = population(ctx, name, maxl, tlevels, th, lambda sh, te, tr: sh.aspect(te) <= 32 and sh.aspect(tr) <= 32)
+    for name, maxl, tlevels, th, *tu in (PLAN_Q if quick else PLAN_T):
+        st, sh, by = population(ctx, name, maxl, tlevels, th, lambda sh, te, tr: sh.aspect(te) <= 32 and sh.aspect(tr) <= 32, *tu)
         if sh is None:
             stats.append(st)
             continue
@@ -209,12 +213,12 @@ def run_c11(prop, tier, seed):
     per_class = 1 if quick else 5
     stats, total, cells, samples, worst = [], 0, set(), [], 0
     from src.hierarchical_error_estimator import DummyElement
-    for name, maxl, tlevels, th in (PLAN_Q if quick else PLAN_T):
+    for name, maxl, tlevels, th, *tu in (PLAN_Q if quick else PLAN_T):
         def want(sh, te, tr):
             # splittable on the integer grid, causal, aspect <= 32 also after a time split
             return (te[1] > tr[0] and all(e[1] - e[0] >= 2 and e[3] - e[2] >= 2 for e in (te, tr))
                     and sh.aspect(te) <= 16 and sh.aspect(tr) <= 16)
-        st, sh, by = population(ctx, name, maxl, tlevels, th, want)
+        st, sh, by = population(ctx, name, maxl, tlevels, th, want, *tu)
         if sh is None:
             stats.append(st)
             continue
@@ -287,9 +291,9 @@ def run_c12(prop, tier, seed):
     per_class = 2 if quick else 8
     stats, total, cells, samples = [], 0, set(), []
     plan = [p for p in (PLAN_Q if quick else PLAN_T) if p[0] != "UnitInterval"]
-    for name, maxl, tlevels, th in plan:
+    for name, maxl, tlevels, th, *tu in plan:
         st, sh, by = population(ctx, name, maxl, tlevels, th,
-                                lambda sh, te, tr: te[1] > tr[0] and sh.aspect(te) <= 32 and sh.aspect(tr) <= 32)
+                                lambda sh, te, tr: te[1] > tr[0] and sh.aspect(te) <= 32 and sh.aspect(tr) <= 32, *tu)
         if sh is None:
             stats.append(st)
             continue
